@@ -141,8 +141,12 @@ func c02(tier string) int {
 		"2 logs distinct keys":                  {la, lb},
 		"3 logs, two sharing one key":           {la, lc, lb},
 		"2 logs, same key name, different keys": {la, le},
+		// The same origin as log A under a NEW key (a key rotation, or a second
+		// configuration loaded in the same process): nothing remembered from
+		// the other configurations may leak into this one.
+		"log A re-keyed": {{Origin: la.Origin, Key: k1b}},
 	}
-	confNames := []string{"1 log", "2 logs distinct keys", "3 logs, two sharing one key", "2 logs, same key name, different keys"}
+	confNames := []string{"1 log", "2 logs distinct keys", "3 logs, two sharing one key", "2 logs, same key name, different keys", "log A re-keyed"}
 	subst := []byte{0x00, '\n', ' ', 0x7f, 0x80, 0xff, '+', 0xe2}
 	stores := []string{"mem"}
 	if tier == "thorough" {
@@ -234,6 +238,9 @@ func c02(tier string) int {
 					cases = append(cases, c02Case{Label: label, ID: id, Old: old, CP: cp, Proof: proof})
 				}
 				shapes := []string{"plain", "ext", "otherlog", "stale-own-valid", "sizepad", "looseb64"}
+				// The seeds are checkpoints of the first configured log (log A's
+				// origin in every configuration), signed with ITS configured key.
+				la := logs[0]
 				for _, shape := range shapes {
 					seed, _ := gen.Get(la, u.Main, 4, shape)
 					add("valid "+shape, la.ID(), seed)
@@ -332,6 +339,10 @@ func c02(tier string) int {
 				logs := configs[part.j.cfgName]
 				mk := func() *wh.Env {
 					e := wh.NewEnv(u, wh.Config{Store: part.j.store, Logs: logs})
+					if e.ConfigDiff != "" {
+						run.Report("log-map-differs-from-configuration config="+part.j.cfgName, fmt.Sprintf("configuration %q: %s", part.j.cfgName, e.ConfigDiff), map[string]any{"kind": "config-map", "config": part.j.cfgName})
+						return e
+					}
 					if part.j.seeded {
 						for _, l := range logs {
 							cp, meta := gen.Get(l, u.Main, 2, "plain")
@@ -343,6 +354,10 @@ func c02(tier string) int {
 					return e
 				}
 				e := mk()
+				if e.ConfigDiff != "" {
+					e.Close()
+					continue // reported; this configuration cannot be explored
+				}
 				for _, c := range part.j.cases[part.lo:part.hi] {
 					b := e.Snap()
 					judge(e, part.j.cfgName, c, part.j.seeded)
@@ -381,7 +396,7 @@ func c02(tier string) int {
 	}
 	run.Set("evaluations", evals)
 	run.Set("exhaustive", true)
-	run.Set("rule", "for 4 configurations (1 log; 2 logs distinct keys; 3 logs of which two share one key under different origins; 2 logs whose keys have the same name but different key material) x {empty witness, every log holding a checkpoint} x 6 seed checkpoints (plain, extension lines, extra signature by another configured log, already cosigned, size with a leading zero, root with non-zero base64 padding bits): the complete byte-level 1-edit neighbourhood (every prefix, every single-bit flip, 8 boundary substitutions and deletion at every byte), 25 line-level / signature-block edits, and every checkpoint of every log (4 sizes x 2 shapes, incl. a log configured only elsewhere) submitted under every other configured ID and under unknown IDs (incl. spellings near a configured ID: other case, surrounding space, one character less or more), and every configured origin signed only by each key that is not its own (impostors) under its own ID. Oracle one-directional: accepted or state changed => stored text is in the set of texts the harness signed with the key configured for that ID and starts with that ID's origin; and for inputs the harness decides (crypto/ed25519 directly) carry no valid signature of that key / unsigned text / wrong origin: refused, state unchanged. distinct_nontrivial = distinct (configuration, state, mutated input)")
+	run.Set("rule", "for 5 configurations built through the repository's own AsLogMap in one process (1 log; 2 logs distinct keys; 3 logs of which two share one key under different origins; 2 logs whose keys have the same name but different key material; log A under a new key) x {empty witness, every log holding a checkpoint} x 6 seed checkpoints (plain, extension lines, extra signature by another configured log, already cosigned, size with a leading zero, root with non-zero base64 padding bits): the complete byte-level 1-edit neighbourhood (every prefix, every single-bit flip, 8 boundary substitutions and deletion at every byte), 25 line-level / signature-block edits, and every checkpoint of every log (4 sizes x 2 shapes, incl. a log configured only elsewhere) submitted under every other configured ID and under unknown IDs (incl. spellings near a configured ID: other case, surrounding space, one character less or more), and every configured origin signed only by each key that is not its own (impostors) under its own ID. Oracle one-directional: accepted or state changed => stored text is in the set of texts the harness signed with the key configured for that ID and starts with that ID's origin; and for inputs the harness decides (crypto/ed25519 directly) carry no valid signature of that key / unsigned text / wrong origin: refused, state unchanged. distinct_nontrivial = distinct (configuration, state, mutated input)")
 	run.Assumption("Ed25519 unforgeability: the set of texts the harness signed is the ground truth for authenticity")
 	return run.Finish()
 }
